@@ -33,6 +33,7 @@ type Edit struct {
 	A, B string // add_bond: endpoints; connect: processor id, shared object id
 	SO   string // add_so
 	Dom  *Dom   // add_domain: the machine whose JSON file is added
+	Dom2 *Dom   `json:",omitempty"` // add_domain: a second file in the same -add-domains list
 	Flag string // list: the listing flag (without dash)
 }
 
@@ -226,7 +227,13 @@ func genEdit(t *rapid.T, l *light) Edit {
 	case "add_domain":
 		d := genDom(t, nil, false)
 		l.doms = append(l.doms, d)
-		return Edit{Kind: k, Dom: &d}
+		e := Edit{Kind: k, Dom: &d}
+		if rapid.IntRange(0, 2).Draw(t, "domlist") == 0 {
+			d2 := genDom(t, nil, false)
+			l.doms = append(l.doms, d2)
+			e.Dom2 = &d2
+		}
+		return e
 	case "del_domains":
 		// the tool does not renumber the processors (its TODO): only a trailing domain no processor uses goes
 		last := len(l.doms) - 1
@@ -342,24 +349,31 @@ func apply(bm *bondmachine.Bondmachine, e Edit, dir string, step int) (args []st
 		bm.Connect_processor_shared_object([]string{e.A, e.B})
 		return []string{"-connect-processor-shared-object", e.A + "," + e.B}, false, nil
 	case "add_domain":
-		b, err := Build(Case{Kind: "machine", Rsize: int(bm.Rsize), Doms: []Dom{*e.Dom}})
-		if err != nil {
-			return nil, false, err
+		var names []string
+		for k, d := range []*Dom{e.Dom, e.Dom2} {
+			if d == nil {
+				continue
+			}
+			b, err := Build(Case{Kind: "machine", Rsize: int(bm.Rsize), Doms: []Dom{*d}})
+			if err != nil {
+				return nil, false, err
+			}
+			raw, err := save(b)
+			if err != nil {
+				return nil, false, err
+			}
+			name := fmt.Sprintf("dom%d_%d.json", step, k)
+			if err := os.WriteFile(filepath.Join(dir, name), raw, 0o644); err != nil {
+				return nil, false, err
+			}
+			m, err := load(raw, true) // main(): Unmarshal into Machine_json, Dejsoner, append
+			if err != nil {
+				return nil, false, err
+			}
+			bm.Domains = append(bm.Domains, m.Mach)
+			names = append(names, name)
 		}
-		raw, err := save(b)
-		if err != nil {
-			return nil, false, err
-		}
-		name := fmt.Sprintf("dom%d.json", step)
-		if err := os.WriteFile(filepath.Join(dir, name), raw, 0o644); err != nil {
-			return nil, false, err
-		}
-		m, err := load(raw, true) // main(): Unmarshal into Machine_json, Dejsoner, append
-		if err != nil {
-			return nil, false, err
-		}
-		bm.Domains = append(bm.Domains, m.Mach)
-		return []string{"-add-domains", name}, false, nil
+		return []string{"-add-domains", strings.Join(names, ",")}, false, nil
 	case "del_domains":
 		for _, id := range e.IDs {
 			if id < len(bm.Domains) {
@@ -544,7 +558,7 @@ func propCLI(c CLICase) pbt.Outcome {
 }
 
 var cliEdit = pbt.Def("cli_edit",
-	"the real `bondmachine` binary ($VERIF_TOOLS): a machine of entry bondmachine (3 in 4) or handshake (1 in 4) written to a file in a private scratch directory, or no file at all (1 in 6: the first invocation creates the machine), then 1..6 invocations `bondmachine -bondmachine-file f -linear-data-range ... <edit>` each under a 20 s timeout: -add-inputs/-add-outputs 1..3, -del-inputs/-del-outputs (1..3 ids, duplicates and ids beyond the count included), -add-bond (both endpoint orders), -del-bonds, -add-processor (also of a non-existent domain: the tool must stop and leave the file alone), -add-shared-objects (every kind), -connect-processor-shared-object, -add-domains (a generated machine file), -del-domains (trailing unused domain, or an id beyond the count) and the 12 listing flags; after every invocation: exit 0, the file is exactly one JSON value, loads by Unmarshal+Dejsoner+Init, has no dropped opcode/shared object/bond, is equal on the reflection walk to the loaded original edited through the public API with main()'s argument handling, equals its save() byte for byte, save(load(file)) == file; a listing leaves the bytes identical; non-trivial = at least one invocation has to leave an existing file shorter than it found it",
+	"the real `bondmachine` binary ($VERIF_TOOLS): a machine of entry bondmachine (3 in 4) or handshake (1 in 4) written to a file in a private scratch directory, or no file at all (1 in 6: the first invocation creates the machine), then 1..6 invocations `bondmachine -bondmachine-file f -linear-data-range ... <edit>` each under a 20 s timeout: -add-inputs/-add-outputs 1..3, -del-inputs/-del-outputs (1..3 ids, duplicates and ids beyond the count included), -add-bond (both endpoint orders), -del-bonds, -add-processor (also of a non-existent domain: the tool must stop and leave the file alone), -add-shared-objects (every kind), -connect-processor-shared-object, -add-domains (one generated machine file, or a list of two), -del-domains (trailing unused domain, or an id beyond the count) and the 12 listing flags; after every invocation: exit 0, the file is exactly one JSON value, loads by Unmarshal+Dejsoner+Init, has no dropped opcode/shared object/bond, is equal on the reflection walk to the loaded original edited through the public API with main()'s argument handling, equals its save() byte for byte, save(load(file)) == file; a listing leaves the bytes identical; non-trivial = at least one invocation has to leave an existing file shorter than it found it",
 	genCLI, propCLI)
 
 func init() { Props = append(Props, cliEdit) }
